@@ -55,7 +55,7 @@ func runC09(r *R) {
 					sizeOK = isLenOf(cf["size"], func(x ssa.Value) bool { return SameCanon(x, written) })
 					lenOK = isLenOf(cf["length"], func(x ssa.Value) bool { return SameCanon(x, written) })
 				case "(*" + arv + ".dirnode).commitBlock":
-					sizeOK = cf["size"] != nil && Canon(cf["size"]) == "free:blocksize" && blocksizeIsLenOfBlock(rootFn(fn))
+					sizeOK = cf["size"] != nil && isLenOfCapturedCell(cf["size"], written)
 					lenOK = cf["length"] != nil && isLenOf(cf["length"], func(x ssa.Value) bool { return bufLoadAfter(x, []ssa.CallInstruction{c}) })
 				}
 				r.Check(g && sizeOK && lenOK, "C09-R1", fn, "storedSegment{locator: PutB(...)}", st.Pos(), "PutB err nil; size=len(block written); length=segment's current length",
@@ -66,28 +66,58 @@ func runC09(r *R) {
 				// value may also come from the localLocator cache map (phi) — accept phi of (map lookup, call)
 				r.Check(g, "C09-R1", fn, "seg.locator = LocalLocator(...)", st.Pos(), "only when the lookup succeeded", "locator replaced by a LocalLocator result whose error was not checked")
 			default:
-				leaves := PhiLeaves(st.Val)
-				ok := len(leaves) > 0
 				why := ""
-				for _, l := range leaves {
-					if l == nil {
-						ok = false
-						continue
+				var originOK func(val ssa.Value, fn *ssa.Function, at ssa.Instruction, depth int) bool
+				originOK = func(val ssa.Value, fn *ssa.Function, at ssa.Instruction, depth int) bool {
+					leaves := PhiLeaves(val)
+					ok := len(leaves) > 0
+					root := fnShort(rootFn(fn))
+					for _, l := range leaves {
+						if l == nil {
+							ok = false
+							continue
+						}
+						cl := Canon(l)
+						switch {
+						case strings.Contains(cl, "storedSegment.locator"): // copy of an existing stored segment
+						case isCallResult(l, "LocalLocator", 0):
+							c, _ := ResultOf(l)
+							g, _ := Guard(fn, c, at, EqC("LocalLocator err == nil", ResultVP(c, 1), NilV))
+							ok = ok && g
+						case isMapLookupOfLocal(l): // localLocator cache filled from checked LocalLocator results
+						case root == "(*"+arv+".dirnode).loadManifest": // manifest token
+						default:
+							// a parameter of an unexported helper: decided at every call site in the package
+							if p, isP := l.(*ssa.Parameter); isP && depth < 3 && fn.Parent() == nil && fn.Object() != nil && !fn.Object().Exported() {
+								idx, sites := -1, 0
+								for i, q := range fn.Params {
+									if q == p {
+										idx = i
+									}
+								}
+								for _, cf := range w.FuncsIn(arv) {
+									allInstrs(cf, func(in ssa.Instruction) {
+										c, isC := in.(*ssa.Call)
+										if !isC || c.Call.StaticCallee() != fn || idx < 0 {
+											return
+										}
+										sites++
+										if !originOK(c.Call.Args[idx], cf, c, depth+1) {
+											ok = false
+										}
+									})
+								}
+								if sites > 0 {
+									continue
+								}
+							}
+							ok = false
+							why = cl
+						}
 					}
-					cl := Canon(l)
-					switch {
-					case strings.Contains(cl, "storedSegment.locator"): // copy of an existing stored segment
-					case isCallResult(l, "LocalLocator", 0):
-						c, _ := ResultOf(l)
-						g, _ := Guard(fn, c, st, EqC("LocalLocator err == nil", ResultVP(c, 1), NilV))
-						ok = ok && g
-					case isMapLookupOfLocal(l): // localLocator cache filled from checked LocalLocator results
-					case root == "(*"+arv+".dirnode).loadManifest": // manifest token
-					default:
-						ok = false
-						why = cl
-					}
+					return ok
 				}
+				ok := originOK(st.Val, fn, st, 0)
 				r.Check(ok, "C09-R1", fn, "storedSegment.locator = …", st.Pos(), "manifest token / existing segment / checked LocalLocator", "stored segment locator of unknown origin "+why)
 			}
 		}
@@ -230,8 +260,8 @@ func runC09(r *R) {
 	}
 
 	// ---- R4 + R5
-	r.Rule("C09-R4", "marshalManifest reads node.segments only after dn.flush(ctx, names, flushOpts{sync:true, shortBlocks:true}) returned nil; any non-stored segment panics instead of being emitted", 2)
-	r.Rule("C09-R5", "every stream/file name in manifest text passes through manifestEscape, whose class matches single-byte runes only (manifestEscapeFunc encodes one byte)", 3)
+	r.Rule("C09-R4", "marshalManifest reads node.segments only after dn.flush(ctx, names, flushOpts{sync:true, shortBlocks:true}) returned nil; any non-stored segment panics instead of being emitted", 1)
+	r.Rule("C09-R5", "every stream/file name in manifest text passes through manifestEscape, whose class matches single-byte runes only (manifestEscapeFunc encodes one byte)", 2)
 	if lit, ok := w.GlobalRegexLiteral(arv + ".manifestEscapedChar"); !ok {
 		r.addS("C09-R5", arv+".manifestEscapedChar", "regex literal", "-", Undecided, "initialiser not found")
 	} else {
@@ -332,22 +362,34 @@ func isMapLookupOfLocal(v ssa.Value) bool {
 }
 
 // blocksizeIsLenOfBlock: in commitBlock, the captured `blocksize` cell is assigned len(block) where block is the cell passed to PutB.
-func blocksizeIsLenOfBlock(fn *ssa.Function) bool {
-	ok := false
-	allInstrs(fn, func(in ssa.Instruction) {
-		st, isS := in.(*ssa.Store)
-		if !isS {
-			return
+// isLenOfCapturedCell: size is `len(X)` evaluated by the enclosing function (once, before the goroutine
+// starts) where X is the very variable the goroutine hands to PutB.
+func isLenOfCapturedCell(size, written ssa.Value) bool {
+	c, ok := ResolveOnce(Resolve1(size)).(*ssa.Call)
+	if !ok || CalleeName(c.Common()) != "builtin.len" {
+		return false
+	}
+	lu, ok := Strip(c.Call.Args[0]).(*ssa.UnOp)
+	if !ok {
+		return false
+	}
+	cell, ok := lu.X.(*ssa.Alloc)
+	if !ok {
+		return false
+	}
+	wu, ok := Strip(written).(*ssa.UnOp)
+	if !ok {
+		return false
+	}
+	fv, ok := wu.X.(*ssa.FreeVar)
+	if !ok || freeVarBinding(fv) != ssa.Value(cell) {
+		return false
+	}
+	// the variable is not assigned again after its length was taken
+	for _, ref := range *cell.Referrers() {
+		if st, isS := ref.(*ssa.Store); isS && st.Addr == ssa.Value(cell) && ReachFromInstr(c, st, nil) {
+			return false
 		}
-		al, isA := st.Addr.(*ssa.Alloc)
-		if !isA || al.Comment != "blocksize" {
-			return
-		}
-		if isLenOf(st.Val, func(x ssa.Value) bool {
-			return strings.Contains(Canon(x), "commitBlock.") || strings.Contains(Canon(x), "block")
-		}) {
-			ok = true
-		}
-	})
-	return ok
+	}
+	return true
 }
